@@ -36,6 +36,12 @@ def main(argv):
     meta_txt = (src / f'{tag}_meta.txt').read_text() if (src / f'{tag}_meta.txt').exists() else ''
     wt = Path(f'/tmp/seedcheck_{seed_id}')
     result = {'property': pid, 'seed_id': seed_id, 'needs': meta_txt.strip()}
+    import os
+    phase = os.environ.get('SEEDTEST_PHASE', 'all')  # 'confirm' (parallelisable), 'check' (serial, needs /repo), 'all'
+    stash = Path('/tmp/seedtest_confirm') / f'{seed_id}.json'
+    if phase == 'check':
+        result = json.loads(stash.read_text())
+        return check_phase(result, pid, seed_id, others, patch, demo)
     sh(['git', '-C', '/repo', 'worktree', 'remove', '--force', str(wt)])
     rc, out = sh(['git', '-C', '/repo', 'worktree', 'add', '--detach', str(wt), 'HEAD'])
     try:
@@ -62,6 +68,14 @@ def main(argv):
     if not confirmed:
         print('NOT CONFIRMED — not kept')
         return 1
+    if phase == 'confirm':
+        stash.parent.mkdir(exist_ok=True)
+        stash.write_text(json.dumps(result))
+        return 0
+    return check_phase(result, pid, seed_id, others, patch, demo)
+
+
+def check_phase(result, pid, seed_id, others, patch, demo):
     # run the checks against the patched /repo
     rc, st = sh(['git', '-C', '/repo', 'status', '--porcelain'])
     if st.strip():
